@@ -262,7 +262,7 @@ Section Lift.
   Qed.
 
   Lemma obs_case_eq :
-    wf_depth c (k_depth c) O (k_tree c) = true -> obs_case split_fiber c = obs_case ref_fiber c.
+    wf_depth c (k_eff c) O (k_tree c) = true -> obs_case split_fiber c = obs_case ref_fiber c.
   Proof. intros H. unfold obs_case. rewrite (obs_depth_eq _ _ _ H). reflexivity. Qed.
 End Lift.
 
@@ -280,4 +280,25 @@ Proof.
     apply andb_true_iff in Hre. destruct Hre as [Hp2 Hrel].
     apply (resplit_model_ref (k_sp c) sp2 (k_d c) shape active es p Hp Hp2); [|exact Hf|exact Hin].
     destruct (sp_rel (k_sp c)); [discriminate|reflexivity].
+Qed.
+
+(* ------------------------------------------------------------------ which rank / rank ids *)
+Lemma rankid_overrides r depth : eff_depth (Some r) depth = r /\ eff_depth None depth = depth.
+Proof. split; reflexivity. Qed.
+
+Lemma split_ids_spec k ids r :
+  nth_error ids k = Some r ->
+  split_ids k ids = firstn k ids ++ [r ++ [1]; r ++ [0]] ++ skipn (S k) ids /\
+  length (split_ids k ids) = S (length ids) /\
+  nth_error (split_ids k ids) k = Some (r ++ [1]) /\
+  nth_error (split_ids k ids) (S k) = Some (r ++ [0]).
+Proof.
+  intros H. unfold split_ids. rewrite H.
+  assert (k < length ids)%nat as Hk by (apply nth_error_Some; congruence).
+  assert (length (firstn k ids) = k) as Hf by (rewrite firstn_length; lia).
+  split; [reflexivity|]. split; [|split].
+  - rewrite !app_length, Hf, skipn_length. cbn [length]. lia.
+  - rewrite nth_error_app2 by lia. rewrite Hf, Nat.sub_diag. reflexivity.
+  - rewrite nth_error_app2 by lia. rewrite Hf.
+    replace (S k - k)%nat with 1%nat by lia. reflexivity.
 Qed.
